@@ -136,6 +136,7 @@ var props = map[string]propCfg{
 		parts: []part{
 			{name: "mcrew-timers", engine: "mcrew", race: true, quick: 1500, thorough: 60000},
 			{name: "sio-timers", engine: "sio", race: true, quick: 600, thorough: 30000},
+			{name: "sio-restart", engine: "sio", race: true, quick: 300, thorough: 15000},
 		},
 		comps: []string{"real: cmd/mcrew/timers.go (instrumented copy)", "simulated: clock (testing/synctest), goroutine scheduling (serial scheduler), map order", "stub: mcrew emitter (harness records firings and issues handler requests)", "real: sio.Crew.Loop, timers machine (sio/timersspec.go), sio.Timers and TimerEntry goroutines, handler machine in ECMAScript; harness = coupling (in/out channels) and a consumer that renders each Result as JSON"},
 	},
